@@ -23,6 +23,7 @@ def generate(rng, tier):
     out += c01.fault_sweep(rng, 14 * n)
     out += [sc.gen_dynamic(rng, faults=(rng.random() < 0.5)) for _ in range(250 * n)]
     out += sc.gen_broad(rng, 150 * n)
+    out += sc.gen_hookraise(rng, 80 * n)
     return out
 
 
